@@ -2747,25 +2747,38 @@ impl LineBuf {
 				let starts = self.sentence_starts();
 				let cursor = self.cursor.get();
 				let mut pos = cursor;
-				for _ in 0..count {
+				// the last character of the buffer, and whether the last sentence is closed by its punctuation
+				// (then the end of the buffer is a place ')' goes to like any other)
+				let last = (0..self.cursor.max).rev().find(|i| self.grapheme_at(*i).is_some_and(|gr| gr != "\n"));
+				let closed = last.is_some_and(|last| {
+					let mut q = last;
+					while q > 0 && self.grapheme_at(q).is_some_and(|gr| [" ","\t",")","]","\"","'"].contains(&gr)) {
+						q -= 1;
+					}
+					self.grapheme_at(q).is_some_and(|gr| PUNCTUATION.contains(&gr))
+				});
+				let mut reached_end = false;
+				for step in 0..count {
+					let steps_left = count - step - 1;
 					match dir {
 						Direction::Forward => {
-							let next = starts.iter().copied().find(|start| *start > pos);
-							match next {
+							match starts.iter().copied().find(|start| *start > pos) {
 								Some(start) => pos = start,
 								None => {
-									// no sentence after this one: on to the last character of the buffer,
-									// which an operator takes
-									let Some(last) = (0..self.cursor.max).rev().find(|i| self.grapheme_at(*i).is_some_and(|gr| gr != "\n")) else {
+									let Some(last) = last else {
 										return MotionKind::Null
 									};
-									if last <= pos && !(verb.is_some() && last == pos) {
+									if reached_end || (pos >= last && !closed) {
+										// already at the end: nothing further to go to
+										if steps_left > 0 || (pos == cursor && verb.is_none()) {
+											return MotionKind::Null
+										}
+									} else if !closed && steps_left > 0 {
+										// running into the end of an unfinished sentence is only good for the last step
 										return MotionKind::Null
 									}
-									if verb.is_some() && last == cursor {
-										return MotionKind::Inclusive((last,last))
-									}
-									return MotionKind::Onto(last)
+									pos = last;
+									reached_end = true;
 								}
 							}
 						}
@@ -2776,6 +2789,13 @@ impl LineBuf {
 							}
 						}
 					}
+				}
+				if reached_end {
+					// the last character of the buffer is part of what an operator takes
+					if pos == cursor {
+						return if verb.is_some() { MotionKind::Inclusive((pos,pos)) } else { MotionKind::Null }
+					}
+					return MotionKind::Onto(pos)
 				}
 				if pos == cursor {
 					return MotionKind::Null
